@@ -64,6 +64,22 @@ def reduce_paramsets_requirements(paramsets_requirements, paramsets_user_configs
 
             combined_paramset[k] = v
 
+        n_parameters = combined_paramset['n_parameters']
+        for k in ['inits', 'bounds', 'auxdata', 'factors', 'sigmas']:
+            v = combined_paramset.get(k)
+            if isinstance(v, set):
+                continue
+            if v is None:
+                if k == 'sigmas':
+                    continue
+                raise exceptions.InvalidModel(
+                    f'{paramset_name} requires {k} to be configured in the measurement.'
+                )
+            if isinstance(v, list) and len(v) != n_parameters:
+                raise exceptions.InvalidModel(
+                    f'Incorrect number of values ({len(v)}) for {k} were configured for {paramset_name}, expected {n_parameters}.'
+                )
+
         combined_paramset['name'] = paramset_name
         reduced_paramsets_requirements[paramset_name] = combined_paramset
 
